@@ -583,6 +583,7 @@ func init() {
 		var compared, stateChecks int64
 		var mu sync.Mutex
 		cfg := e1.Config{
+			ReplayNames: c.ReplayCalls(),
 			Alphabet: alpha,
 			Depth:    depth,
 			New: func() *world.World {
